@@ -41,3 +41,40 @@ class LinksBetween:
                        and (a[1] + link_vec(l)[1]) % machine.height == b[1]
                        and working(machine, a[0], a[1], l))
                    for l in range(6))
+
+
+# ---- "does this tree use dead hardware": the test that decides whether a tree is repaired ------------------------------
+from pyvc.values import TSeq, TSmallSet, TBool   # noqa: E402
+from pyvc.speclib import exists_range, select, seq_len   # noqa: E402
+
+HOP = TTuple(TInt(), T2, TSmallSet(list(range(6))))        # what RoutingTree.traverse() yields: (direction, chip, outgoing links)
+
+
+def _traverse(E, obj, args, kwargs, st, node):
+    """RoutingTree.traverse(): the hops of the tree as a sequence (ghost input g_hops)"""
+    return [(st, st.env["g_hops"], None)]
+
+
+@contract("rig/place_and_route/route/ner.py::route_has_dead_links")
+class RouteHasDeadLinks:
+    """(also serves C01: a tree that uses dead hardware must be recognised, or packets are sent into it)
+    True exactly when some hop of the tree leaves a chip by a link that is not a working link of a working chip inside the
+    machine - in particular a hop out of a dead chip counts whether or not any link is listed as dead"""
+    properties = ("C03", "C01")
+    params = dict(root=TRec("RoutingTree"), machine=MACHINE, g_hops=TSeq(HOP))
+    result = TBool()
+    externals = {"RoutingTree.traverse": _traverse}
+    options = {"int_class": "rig/links.py::Links", "var_shapes": {"direction": TInt(), "x": TInt(), "y": TInt(), "routes": TSmallSet(list(range(6)))}}
+    loop_headers = {0: "for direction, (x, y), routes in root.traverse():"}
+    assumptions = ["RoutingTree.traverse (generator over an object graph) is external: the hops it yields are a ghost sequence; routes are links (cores never leave a chip)"]
+
+    def native(machine, g_hops):
+        raise __import__("pyvc.replay", fromlist=["OutsideHarness"]).OutsideHarness()
+
+    def inv_0_no_dead_hop_so_far(g_hops, machine, _k0):
+        return not exists_range(0, _k0, lambda i: any(l in select(g_hops, i)[2] and not working(machine, select(g_hops, i)[1][0], select(g_hops, i)[1][1], l)
+                                                      for l in range(6)))
+
+    def ensures_true_iff_some_hop_uses_dead_hardware(g_hops, machine, result):
+        return iff(result, exists_range(0, seq_len(g_hops), lambda i: any(
+            l in select(g_hops, i)[2] and not working(machine, select(g_hops, i)[1][0], select(g_hops, i)[1][1], l) for l in range(6))))
